@@ -538,8 +538,8 @@ def elayer_of(layer, item, layer_map, gv):
          "is_output": layer in layer_map["output_layers"], "inputs": inputs, "n_inputs": len(iq),
          "out_elems": _prod(list(out_shapes)[1:]), "out_bits": core.rj(outq.bits),
          "count": int(gv(item, "operation_count")), "bn_size": 0, "bn_bits": [], "w_elems": 0,
-         "w_bits": core.rj(0), "bias": None, "multiplier": None, "accumulator": None, "bn_div": None,
-         "bn_mul": None}
+         "w_bits": core.rj(0), "bias": None, "multiplier": None, "accumulator": None,
+         "pool_accumulator": None, "bn_div": None, "bn_mul": None}
   sizes = [i[0] for i in inputs] + [rec["out_elems"]]
   bits = [F(q.bits) for q in iq] + [F(outq.bits)]
   gate = []
@@ -576,6 +576,11 @@ def elayer_of(layer, item, layer_map, gv):
     if acc is not None:
       rec["accumulator"] = {"bits": core.rj(acc.output.bits), "float": bool(acc.output.is_floating_point)}
       gate.append(F(acc.output.bits))
+    pacc = gv(item, "pool_sum_accumulator")      # the pooling items (fix 2562e1d reads this key)
+    if pacc is not None:
+      rec["pool_accumulator"] = {"bits": core.rj(pacc.output.bits),
+                                 "float": bool(pacc.output.is_floating_point)}
+      gate.append(F(pacc.output.bits))
   return rec, sizes, bits, gate
 
 
@@ -729,7 +734,8 @@ def run(run: core.Run, tier: str):
             kout = _shape(layer.output_shape)   # multi-input layers; that branch never asks Keras
         line = {"op": "count", "name": cls, "in": in_shape, "out": kout,
                 "w": [int(d) for d in ws[0].shape] if ws else [],
-                "pool": _pair(layer.pool_size) if hasattr(layer, "pool_size") else None}
+                "pool": _pair(layer.pool_size) if hasattr(layer, "pool_size") else None,
+                "groups": int(getattr(layer, "groups", 1))}
         count_lines.append(line)
         count_meta.append((mname, layer.name, cls, reported, orc, line))
       if orc is not None and orc[0] != "merge":
@@ -763,7 +769,8 @@ def run(run: core.Run, tier: str):
             orc = layer_oracle(K, tf, layer, [in_shape])
             kout = _shape(layer.compute_output_shape(tuple([None] + in_shape)))
           line = {"op": "est", "name": cls, "in": in_shape, "out": kout,
-                  "w": [int(d) for d in layer.get_weights()[0].shape], "pool": None}
+                  "w": [int(d) for d in layer.get_weights()[0].shape], "pool": None,
+                  "groups": int(getattr(layer, "groups", 1))}
           est_lines.append(line)
           est_meta.append((layer.name, cls, int(ops[layer.name]["number_of_operations"]), orc, line))
     # ------------------------------------------------------------ energy
@@ -943,7 +950,7 @@ def run(run: core.Run, tier: str):
       run.violate("energy_report_exists",
                   {"stream": "energy", "error": err, "avg_pooling_layer": has_avgpool},
                   {"classes": classes, "placement": plc, "error": err,
-                   "replay": "QTools(model).pe(...) on a model containing (Global)AveragePooling2D"},
+                   "replay": "QTools(model).pe(...) on a model with these layer classes"},
                   mirrored=mirrored)
       continue
     if "err" in o:
